@@ -1,5 +1,6 @@
 From Coq Require Extraction ExtrOcamlBasic.
 From Common Require Import Words.
-From ServerWrite Require Import ServerWriteSpec ServerWriteModel.
+From ServerWrite Require Import ServerWriteSpec ServerWriteModel ServerWrite2Spec ServerWrite2Model.
 Extraction Language OCaml.
-Extraction "model.ml" anchor init step spec_init spec_step getSendBufferSize isSuspended.
+Extraction "model.ml" anchor init step spec_init spec_step getSendBufferSize isSuspended
+  init2 step2 spec_init2 spec_step2 get2 sget any_void.
